@@ -13,6 +13,32 @@ import (
 
 func init() { components["fileset"] = filesetMain }
 
+// buildSet: either AddFile by AddFile, or (fromList) NewFileSet(list...) from a list with spare capacity that the caller
+// keeps using afterwards (appends to it, overwrites its elements): the set keeps the files it was given
+func buildSet(fl []*text.File, fromList bool) *parsley.FileSet {
+	if !fromList || len(fl) == 0 {
+		fs := parsley.NewFileSet()
+		for _, f := range fl {
+			fs.AddFile(f)
+		}
+		return fs
+	}
+	k := (len(fl) + 1) / 2
+	list := make([]parsley.File, k, len(fl)+4)
+	for i := 0; i < k; i++ {
+		list[i] = fl[i]
+	}
+	fs := parsley.NewFileSet(list...)
+	for _, f := range fl[k:] {
+		fs.AddFile(f)
+		list = append(list, text.NewFile("decoy", []byte("decoy\ndecoy\n")))
+	}
+	for i := range list {
+		list[i] = text.NewFile("decoy", []byte("d"))
+	}
+	return fs
+}
+
 type fsFile struct {
 	Name string   `json:"name"`
 	Raw  []int    `json:"raw"`
@@ -65,13 +91,11 @@ func filesetMain(mode string, a args) {
 			// two query orders: ascending on one fresh set (cold line tables first touched at low offsets),
 			// descending on another (first touched at the end)
 			for order := 0; order < 2; order++ {
-				fs := parsley.NewFileSet()
 				var fl []*text.File
 				for _, f := range c.Files {
-					tf := mkFile(f.Name, bytesOf(f.Raw))
-					fs.AddFile(tf)
-					fl = append(fl, tf)
+					fl = append(fl, mkFile(f.Name, bytesOf(f.Raw)))
 				}
+				fs := buildSet(fl, order == 1)
 				for i, f := range c.Files {
 					comps += 2
 					if fl[i].Len() != f.Len {
